@@ -8,6 +8,7 @@ package main
 import (
 	"go/types"
 	"path"
+	"unicode"
 	"path/filepath"
 	"strconv"
 	"strings"
@@ -192,4 +193,54 @@ func initState(m *Machine, pkgs ...string) *State {
 		st.Msg = why
 	}
 	return st
+}
+
+
+// eofVal / unexpectedEOFVal stand for io.EOF and io.ErrUnexpectedEOF.
+var eofVal = IfaceV{T: types.NewPointer(types.Typ[types.String]), V: "io.EOF"}
+var unexpectedEOFVal = IfaceV{T: types.NewPointer(types.Typ[types.String]), V: "io.ErrUnexpectedEOF"}
+
+func installIOGlobals(m *Machine) {
+	if m.ExtGlobals == nil {
+		m.ExtGlobals = map[string]Val{}
+	}
+	m.ExtGlobals["io.EOF"] = eofVal
+	m.ExtGlobals["io.ErrUnexpectedEOF"] = unexpectedEOFVal
+}
+
+func unicodePred(v Val) func(rune) bool {
+	fv, ok := v.(*FuncV)
+	if !ok {
+		return nil
+	}
+	f, ok := fv.Fn.(*ssa.Function)
+	if !ok {
+		return nil
+	}
+	switch f.String() {
+	case "unicode.IsSpace":
+		return unicode.IsSpace
+	case "unicode.IsDigit":
+		return unicode.IsDigit
+	case "unicode.IsLetter":
+		return unicode.IsLetter
+	}
+	return nil
+}
+
+func installFuncModels(m *Machine) {
+	mk := func(f func(s string, p func(rune) bool) Val) HookFn {
+		return func(m *Machine, st *State, call *ssa.CallCommon, args []Val) ([]Val, bool) {
+			s, ok := args[0].(string)
+			pr := unicodePred(args[1])
+			if !ok || pr == nil {
+				return nil, false
+			}
+			return []Val{f(s, pr)}, true
+		}
+	}
+	m.Hooks["strings.TrimRightFunc"] = mk(func(s string, p func(rune) bool) Val { return strings.TrimRightFunc(s, p) })
+	m.Hooks["strings.TrimLeftFunc"] = mk(func(s string, p func(rune) bool) Val { return strings.TrimLeftFunc(s, p) })
+	m.Hooks["strings.TrimFunc"] = mk(func(s string, p func(rune) bool) Val { return strings.TrimFunc(s, p) })
+	m.Hooks["strings.IndexFunc"] = mk(func(s string, p func(rune) bool) Val { return int64(strings.IndexFunc(s, p)) })
 }
